@@ -19,6 +19,7 @@ func init() {
 			"every access to an element of Bloom.filter (read, write, read-modify-write) in package storage/bloom happens while Bloom.mutex is held (lock-state dataflow over the SSA CFG, " +
 			"entry modes of unexported helpers inherited from their call sites); the slice header Bloom.filter is assigned only while the object is under construction, so unlocked len() reads are race-free; " +
 			"the filter slice does not escape to callees. The field is unexported, so the package is the whole universe of accesses. " +
+			"A write whose value derives from a read of the filter sits in the same critical section as that read (no Unlock/RUnlock between them on any path): an atomicity violation loses a concurrent Add's bit although every access is locked. " +
 			"Not decided (value-level): that MayContain tests exactly the bits Add sets (hash/index arithmetic).",
 		Run: runC31,
 	})
@@ -109,6 +110,42 @@ func checkFilterUses(c *core.Ctx, fn *ssa.Function, hdr ssa.Value, modes map[ssa
 				c.Check(m >= need, "C31/filter-element-access-under-mutex", name, rr.Pos(),
 					fmt.Sprintf("filter element %s while %s", kind, m),
 					fmt.Sprintf("filter element %s while Bloom.mutex is %s: races with concurrent Add (a lost update is a false negative)", kind, m))
+				// a write that depends on a read of the filter must sit in the same critical section as
+				// that read: if the mutex is released in between, a concurrent Add's bit is overwritten
+				if st, isSt := rr.(*ssa.Store); isSt && write {
+					for x := range core.BackwardReachPure(st.Val) {
+						ld, isLd := x.(*ssa.UnOp)
+						if !isLd || ld.Op != token.MUL {
+							continue
+						}
+						ia, isIA := ld.X.(*ssa.IndexAddr)
+						if !isIA || !derivesFrom(ia.X, hdr) {
+							continue
+						}
+						released := ""
+						core.Instrs(fn, func(in ssa.Instruction) {
+							cc := core.CallOf(in)
+							if cc == nil || cc.StaticCallee() == nil {
+								return
+							}
+							if nm := cc.StaticCallee().Name(); nm != "Unlock" && nm != "RUnlock" {
+								return
+							}
+							if _, isDefer := in.(*ssa.Defer); isDefer {
+								return
+							}
+							a, _ := core.PathQ{Fn: fn, From: ld, Target: func(y ssa.Instruction, _ *ssa.BasicBlock) bool { return y == in },
+								Via: func(y ssa.Instruction) bool { return y == ssa.Instruction(st) }}.Escape()
+							b, _ := core.PathQ{Fn: fn, From: in, Target: func(y ssa.Instruction, _ *ssa.BasicBlock) bool { return y == ssa.Instruction(st) }}.Escape()
+							if a != nil && b != nil {
+								released = c.P.Pos(in.Pos())
+							}
+						})
+						c.Check(released == "", "C31/filter-element-access-under-mutex", name+"/read-modify-write-in-one-section", st.Pos(),
+							"the value written derives from a read of the filter made in the same critical section",
+							"the value written derives from a read of the filter made before the mutex was released at "+released+": a bit set by a concurrent Add in between is overwritten (a lost update is a false negative), although every access is under the mutex")
+					}
+				}
 			}
 		case *ssa.Slice, *ssa.Phi:
 			checkFilterUses(c, fn, u.(ssa.Value), modes, n)
@@ -124,4 +161,27 @@ func checkFilterUses(c *core.Ctx, fn *ssa.Function, hdr ssa.Value, modes map[ssa
 			c.Undecided("C31/filter-element-access-under-mutex", fmt.Sprintf("%s/filter-use", fname(fn)), r.Pos(), fmt.Sprintf("unrecognised use of the filter slice: %T", r))
 		}
 	}
+}
+
+func derivesFrom(v, root ssa.Value) bool {
+	for i := 0; i < 8; i++ {
+		if v == root {
+			return true
+		}
+		switch x := v.(type) {
+		case *ssa.Slice:
+			v = x.X
+		case *ssa.Phi:
+			for _, e := range x.Edges {
+				if derivesFrom(e, root) {
+					return true
+				}
+			}
+			return false
+		default:
+			// two loads of the same field are the same header
+			return core.ExprKey(v) == core.ExprKey(root)
+		}
+	}
+	return false
 }
